@@ -17,6 +17,7 @@ import (
 	"google.golang.org/grpc/metadata"
 	"google.golang.org/grpc/status"
 	"google.golang.org/protobuf/proto"
+	"google.golang.org/protobuf/reflect/protoreflect"
 	"google.golang.org/protobuf/types/dynamicpb"
 	"larking.io/larking"
 )
@@ -250,7 +251,101 @@ type c14Script struct {
 	replies int
 }
 
+// c14Extra: a trailer key that is also a header key over gRPC-web, and header metadata in
+// front of an AsHTTPBodyWriter download.
+func c14Extra(c *Ctx) {
+	dl := func(fx *Fixture, ms *MethodSpec, st grpc.ServerStream) error {
+		if err := st.RecvMsg(fx.NewMsg("Req")); err != nil {
+			return err
+		}
+		st.SetHeader(metadata.Pairs("x-c14-dl", "hv", "x-c14-dl", "hv2", "x-c14-dl-bin", "\x00\xff")) //nolint
+		hb := fx.NewMsg("google.api.HttpBody")
+		hb.Set(hb.Descriptor().Fields().ByName("content_type"), protoreflect.ValueOfString("text/x-c14"))
+		w, err := larking.AsHTTPBodyWriter(st, hb)
+		if err != nil {
+			return err
+		}
+		_, err = w.Write([]byte("download-bytes"))
+		return err
+	}
+	same := func(fx *Fixture, ms *MethodSpec, st grpc.ServerStream) error {
+		if err := st.RecvMsg(fx.NewMsg("Req")); err != nil {
+			return err
+		}
+		st.SetHeader(metadata.Pairs("x-c14-same", "header-value", "x-c14-same-bin", "hb")) //nolint
+		if err := st.SendMsg(fx.NewMsg("Reply")); err != nil {
+			return err
+		}
+		st.SetTrailer(metadata.Pairs("x-c14-same", "trailer-value", "x-c14-same-bin", "tb1", "x-c14-same-bin", "tb2", "x-c14-only-t", "t"))
+		return nil
+	}
+	fx, err := NewFixture([]*MethodSpec{
+		{Name: "Dl", In: "Req", Out: "google.api.HttpBody", ServerStream: true, Stream: dl, Rule: getRule("/c14x/dl")},
+		{Name: "Same", In: "Req", Out: "Reply", ServerStream: true, Stream: same, Rule: getRule("/c14x/same")},
+	}, nil)
+	if err != nil || fx.RegErr != nil || fx.RegPanic != nil {
+		c.SpecFail("fixture", "c14 extra", fmt.Sprint(err, fx.RegErr, fx.RegPanic), "", "C14/fixture", "fixture")
+		return
+	}
+	defer fx.Close()
+	// AsHTTPBodyWriter download: committed headers
+	{
+		rec, pn := fx.Serve(httptest.NewRequest("GET", "/c14x/dl", nil))
+		in := "GET /c14x/dl: SetHeader, then AsHTTPBodyWriter"
+		c.Eval("api-http-bodywriter-md", in, true)
+		h := http.Header{}
+		if pn == nil {
+			h = rec.Result().Header
+		}
+		bin, _ := base64.RawStdEncoding.DecodeString(strings.TrimRight(h.Get("X-C14-Dl-Bin"), "="))
+		if pn != nil || rec.Code != 200 || rec.Body.String() != "download-bytes" || strings.Join(h.Values("X-C14-Dl"), ",") != "hv,hv2" || string(bin) != "\x00\xff" {
+			c.SpecFail("api-http-bodywriter-md", in, fmt.Sprintf("%d body=%q x-c14-dl=%q x-c14-dl-bin=%q panic=%v", rec.Code, truncS(rec.Body.String(), 40), h.Values("X-C14-Dl"), h.Get("X-C14-Dl-Bin"), pn), "200, the bytes, x-c14-dl=[hv hv2] and the -bin value", "C14/http/header-lost-before-bodywriter", "header metadata set before AsHTTPBodyWriter does not reach the HTTP client")
+		}
+	}
+	// gRPC-web: the same key as header and as trailer
+	for _, ct := range []string{"application/grpc-web+proto", "application/grpc-web-text+proto"} {
+		r := httptest.NewRequest("POST", "/verif.v1.Svc/Same", bytes.NewReader(grpcFrame(0, nil)))
+		if strings.Contains(ct, "text") {
+			r = httptest.NewRequest("POST", "/verif.v1.Svc/Same", strings.NewReader(base64.StdEncoding.EncodeToString(grpcFrame(0, nil))))
+		}
+		r.Header.Set("Content-Type", ct)
+		rec, pn := fx.Serve(r)
+		in := ct + ": x-c14-same set as header and as trailer"
+		c.Eval("api-web-same-key", in, true)
+		if pn != nil {
+			c.SpecFail("api-web-same-key", in, fmt.Sprint("panic ", pn), "a response", "C14/web/panic", "panic")
+			continue
+		}
+		body := rec.Body.Bytes()
+		if strings.Contains(ct, "text") {
+			if d, err := base64.StdEncoding.DecodeString(string(body)); err == nil {
+				body = d
+			}
+		}
+		frames, flags, _ := parseFrames(body)
+		tr := http.Header{}
+		for i, f := range frames {
+			if flags[i]&0x80 != 0 {
+				tp := textproto.NewReader(bufioReader(append(append([]byte{}, f...), '\r', '\n')))
+				mh, _ := tp.ReadMIMEHeader()
+				for k, v := range mh {
+					tr[strings.ToLower(k)] = v
+				}
+			}
+		}
+		var tb []string
+		for _, v := range tr["x-c14-same-bin"] {
+			d, _ := base64.RawStdEncoding.DecodeString(strings.TrimRight(v, "="))
+			tb = append(tb, string(d))
+		}
+		if rec.Header().Get("X-C14-Same") != "header-value" || strings.Join(tr["x-c14-same"], ",") != "trailer-value" || strings.Join(tb, ",") != "tb1,tb2" || strings.Join(tr["x-c14-only-t"], ",") != "t" {
+			c.SpecFail("api-web-same-key", in, fmt.Sprintf("header x-c14-same=%q; trailer frame x-c14-same=%q x-c14-same-bin=%q x-c14-only-t=%q", rec.Header().Get("X-C14-Same"), tr["x-c14-same"], tb, tr["x-c14-only-t"]), "header-value / trailer-value / [tb1 tb2] / t", "C14/web/trailer-lost-same-key-as-header", "a handler trailer whose key was also sent as a header does not reach the gRPC-web client")
+		}
+	}
+}
+
 func c14API(c *Ctx) {
+	c14Extra(c)
 	var sc c14Script
 	var seen metadata.MD
 	run := func(ctx context.Context) error {
